@@ -263,6 +263,7 @@ pub fn ast_tree(e: &E) -> Option<Tree> {
                 Bin::Apply => "Apply",
                 Bin::ApplyTo => "ApplyTo",
                 Bin::Concat => "Concatenation",
+                Bin::Partial => "PartialApply",
             };
             Tree::Bin(d.into(), b.text().into(), Box::new(ast_tree(l)?), Some(Box::new(ast_tree(r)?)))
         }
